@@ -79,6 +79,8 @@ type parent struct {
 	herrs    []string
 	children int64
 	runs     int64
+	deaths   int  // unclassified confirmed child deaths
+	aborted  bool // circuit breaker tripped: remaining batches skipped
 }
 
 // capBuf keeps the head and the tail of a stream.
@@ -390,7 +392,7 @@ func procCPU(pid int) time.Duration {
 		return 0
 	}
 	ticks := common.Atoi(f[11], 0) + common.Atoi(f[12], 0) // utime, stime (fields 14, 15)
-	return time.Duration(ticks) * time.Second / 100       // USER_HZ is 100 on Linux
+	return time.Duration(ticks) * time.Second / 100        // USER_HZ is 100 on Linux
 }
 
 func (p *parent) merge(mode string, res map[int]*Res) {
@@ -414,7 +416,26 @@ func (p *parent) addCrash(in Input, how, detail, mode string, reproduced bool) {
 			return
 		}
 	}
-	p.crashes[in.ID] = &Crash{ID: in.ID, Kind: in.Kind, Note: in.Note, InputHex: hexOrDash(string(in.Src)), How: how, Detail: detail, Mode: mode, Reproduced: reproduced}
+	c := &Crash{ID: in.ID, Kind: in.Kind, Note: in.Note, InputHex: hexOrDash(string(in.Src)), How: how, Detail: detail, Mode: mode, Reproduced: reproduced}
+	if _, seen := p.crashes[in.ID]; !seen && reproduced && how != "panic" && classifyCrash(c, in.Src) == "" {
+		// circuit breaker: every child death costs up to the CPU limit several times over; once a
+		// handful of unclassified ones is confirmed the run is red anyway, so stop scheduling batches
+		p.deaths++
+		if p.deaths >= maxDeaths {
+			p.aborted = true
+		}
+	}
+	p.crashes[in.ID] = c
+}
+
+// maxDeaths: unclassified child deaths (timeout, fatal, signal, memcap) after which the remaining
+// batches are skipped (massive breakage: the run stays bounded; the report says so).
+const maxDeaths = 6
+
+func (p *parent) isAborted() bool {
+	p.mu.Lock()
+	defer p.mu.Unlock()
+	return p.aborted
 }
 
 func (p *parent) harnessErr(s string) {
@@ -429,6 +450,9 @@ func (p *parent) harnessErr(s string) {
 func (p *parent) runBatch(mode string, inputs []Input) {
 	pending := inputs
 	for len(pending) > 0 {
+		if p.isAborted() {
+			return
+		}
 		co := p.runChild(mode, pending, false)
 		p.merge(mode, co.res)
 		if co.death == nil {
@@ -775,7 +799,7 @@ func parentMain(argv []string) int {
 	}
 	rw.Flush()
 	rf.Close()
-	if statuses["missing"] > 0 {
+	if statuses["missing"] > 0 && !p.aborted {
 		p.harnessErr(fmt.Sprintf("%d inputs have neither a result nor a crash observation", statuses["missing"]))
 	}
 	sort.Slice(slows, func(i, j int) bool { return slows[i].CPU > slows[j].CPU })
@@ -819,31 +843,32 @@ func parentMain(argv []string) int {
 		known = []any{}
 	}
 	report := map[string]any{
-		"label":                "exploration (isolated-worker runs); NOT proof",
-		"seed":                 seed,
-		"tier":                 tier,
-		"replay":               replay != "",
-		"distinct_inputs":      len(inputs),
-		"evaluations":          atomic.LoadInt64(&p.runs),
-		"kinds":                kinds,
-		"statuses":             statuses,
-		"kind_status":          kindStatus,
-		"size_histogram_bytes": sizes,
-		"batches":              len(batches),
-		"children":             atomic.LoadInt64(&p.children),
-		"workers":              workers,
-		"per_input_cpu_limit_s": int(p.timeout / time.Second),
+		"label":                        "exploration (isolated-worker runs); NOT proof",
+		"seed":                         seed,
+		"tier":                         tier,
+		"replay":                       replay != "",
+		"distinct_inputs":              len(inputs),
+		"evaluations":                  atomic.LoadInt64(&p.runs),
+		"kinds":                        kinds,
+		"statuses":                     statuses,
+		"kind_status":                  kindStatus,
+		"size_histogram_bytes":         sizes,
+		"batches":                      len(batches),
+		"children":                     atomic.LoadInt64(&p.children),
+		"workers":                      workers,
+		"per_input_cpu_limit_s":        int(p.timeout / time.Second),
 		"heavy_input_cpu_limit_factor": heavyFactor,
-		"cpu_s_mode_A_total":   float64(cpuTotal) / 1000,
-		"mem_cap_bytes":        int64(memCapBytes),
-		"crashes":              crashes,
-		"nondet":               nds,
-		"known":                known,
-		"known_classes":        knownClasses,
-		"harness_errors":       p.herrs,
-		"slowest":              slows,
-		"input_distribution":   dist,
-		"wall_s":               time.Since(t0).Seconds(),
+		"cpu_s_mode_A_total":           float64(cpuTotal) / 1000,
+		"mem_cap_bytes":                int64(memCapBytes),
+		"crashes":                      crashes,
+		"nondet":                       nds,
+		"known":                        known,
+		"known_classes":                knownClasses,
+		"harness_errors":               p.herrs,
+		"aborted_after_deaths":         p.aborted,
+		"slowest":                      slows,
+		"input_distribution":           dist,
+		"wall_s":                       time.Since(t0).Seconds(),
 	}
 	jb, _ := json.MarshalIndent(report, "", " ")
 	if err := os.WriteFile(filepath.Join(outDir, "report.json"), append(jb, '\n'), 0o644); err != nil {
